@@ -74,16 +74,17 @@ def install_frame_contract(ctx, record=None):
             before = [np.array(p, float, copy=True) for p in pos]
             result = real(*args, **kwargs)
             try:
-                if all(np.all(np.isfinite(b)) for b in before) and np.any(before[2] - before[0]):
-                    cls, problems = frame_problems(before, pos, result)
-                    ctx.monitor('frame_contract')
-                    ctx.hit('frame:' + cls)
-                    for mech, msg in problems:
-                        ctx.violation(mech, msg, witness={'points': before})
-                    if record is not None:
-                        record(before, result, cls)
-                else:
-                    ctx.count('frame_contract_out_of_domain')
+                with bus.neutral():
+                    if all(np.all(np.isfinite(b)) for b in before) and np.any(before[2] - before[0]):
+                        cls, problems = frame_problems(before, pos, result)
+                        ctx.monitor('frame_contract')
+                        ctx.hit('frame:' + cls)
+                        for mech, msg in problems:
+                            ctx.violation(mech, msg, witness={'points': before})
+                        if record is not None:
+                            record(before, result, cls)
+                    else:
+                        ctx.count('frame_contract_out_of_domain')
             except Exception as exc:  # noqa  (monitor must not perturb)
                 ctx.violation('monitor-error:frame', repr(exc))
             return result
@@ -123,14 +124,15 @@ def install_rotation_contract(ctx):
             before = np.array(axis, float, copy=True)
             R = real(*args, **kwargs)
             try:
-                if np.all(np.isfinite(before)) and np.linalg.norm(before) > 0 and np.isfinite(theta):
-                    ctx.monitor('rotation_contract')
-                    for mech, msg in rotation_problems(before, float(theta), R):
-                        ctx.violation(mech, msg, witness={'axis': before, 'theta': float(theta)})
-                    if not np.array_equal(np.asarray(axis, float), before):
-                        ctx.violation('rot-input-modified', 'rotation_matrix changed its axis argument')
-                else:
-                    ctx.count('rotation_contract_out_of_domain')
+                with bus.neutral():
+                    if np.all(np.isfinite(before)) and np.linalg.norm(before) > 0 and np.isfinite(theta):
+                        ctx.monitor('rotation_contract')
+                        for mech, msg in rotation_problems(before, float(theta), R):
+                            ctx.violation(mech, msg, witness={'axis': before, 'theta': float(theta)})
+                        if not np.array_equal(np.asarray(axis, float), before):
+                            ctx.violation('rot-input-modified', 'rotation_matrix changed its axis argument')
+                    else:
+                        ctx.count('rotation_contract_out_of_domain')
             except Exception as exc:  # noqa
                 ctx.violation('monitor-error:rotation', repr(exc))
             return R
@@ -209,12 +211,13 @@ def install_move_contract(ctx, on_call=None):
             before = np.array(atoms_pos, float, copy=True)
             d = real(*args, **kwargs)
             try:
-                ctx.monitor('displ_contract')
-                for mech, msg in displ_problems(before, bonds_info, atom_index, d):
-                    ctx.violation(mech, msg, witness={'pos': before, 'bonds': {k: list(v) for k, v in bonds_info.items()}, 'atom': atom_index})
-                if not np.array_equal(before, np.asarray(atoms_pos, float)):
-                    ctx.violation('displ-input-modified', 'find_atom_random_displ changed atoms_pos')
-                state['displ'] = (int(atom_index), np.array(d, float, copy=True))
+                with bus.neutral():
+                    ctx.monitor('displ_contract')
+                    for mech, msg in displ_problems(before, bonds_info, atom_index, d):
+                        ctx.violation(mech, msg, witness={'pos': before, 'bonds': {k: list(v) for k, v in bonds_info.items()}, 'atom': atom_index})
+                    if not np.array_equal(before, np.asarray(atoms_pos, float)):
+                        ctx.violation('displ-input-modified', 'find_atom_random_displ changed atoms_pos')
+                    state['displ'] = (int(atom_index), np.array(d, float, copy=True))
             except Exception as exc:  # noqa
                 ctx.violation('monitor-error:displ', repr(exc))
             return d
@@ -227,34 +230,35 @@ def install_move_contract(ctx, on_call=None):
             state['displ'] = None
             out = real(*args, **kwargs)
             try:
-                used_index, used_displ = atom_index, displ
-                if used_displ is None and state['displ'] is not None:
-                    used_index, used_displ = state['displ']
-                if not np.array_equal(before, np.asarray(atoms_pos, float)):
-                    ctx.violation('move-input-modified', 'move_mol_atom changed its input array')
-                if used_index is None and used_displ is not None:
-                    # the caller gave the displacement and left the atom to the function: some atom must have moved by
-                    # exactly that vector
-                    d = np.asarray(used_displ, float)
-                    moved = [j for j in range(len(before)) if np.array_equal(np.asarray(out, float)[j], before[j] + d)]
-                    ctx.monitor('move_contract')
-                    if not moved:
-                        ctx.violation('move-wrong-displacement', 'displacement given, atom index omitted: no atom was displaced by the requested vector',
-                                      witness={'pos': before, 'displ': d})
+                with bus.neutral():
+                    used_index, used_displ = atom_index, displ
+                    if used_displ is None and state['displ'] is not None:
+                        used_index, used_displ = state['displ']
+                    if not np.array_equal(before, np.asarray(atoms_pos, float)):
+                        ctx.violation('move-input-modified', 'move_mol_atom changed its input array')
+                    if used_index is None and used_displ is not None:
+                        # the caller gave the displacement and left the atom to the function: some atom must have moved by
+                        # exactly that vector
+                        d = np.asarray(used_displ, float)
+                        moved = [j for j in range(len(before)) if np.array_equal(np.asarray(out, float)[j], before[j] + d)]
+                        ctx.monitor('move_contract')
+                        if not moved:
+                            ctx.violation('move-wrong-displacement', 'displacement given, atom index omitted: no atom was displaced by the requested vector',
+                                          witness={'pos': before, 'displ': d})
+                        else:
+                            used_index = moved[0]
+                    if used_index is None or used_displ is None:
+                        ctx.count('move_contract_unobserved_draw')
                     else:
-                        used_index = moved[0]
-                if used_index is None or used_displ is None:
-                    ctx.count('move_contract_unobserved_draw')
-                else:
-                    cls, problems = move_problems(before, bonds_info, int(used_index), used_displ, out)
-                    ctx.monitor('move_contract')
-                    ctx.hit('move:' + cls)
-                    for mech, msg in problems:
-                        ctx.violation(mech, msg, witness={
-                            'pos': before, 'bonds': {k: list(v) for k, v in bonds_info.items()},
-                            'atom': int(used_index), 'displ': np.asarray(used_displ)})
-                    if on_call is not None:
-                        on_call(before, bonds_info, int(used_index), used_displ, out, cls)
+                        cls, problems = move_problems(before, bonds_info, int(used_index), used_displ, out)
+                        ctx.monitor('move_contract')
+                        ctx.hit('move:' + cls)
+                        for mech, msg in problems:
+                            ctx.violation(mech, msg, witness={
+                                'pos': before, 'bonds': {k: list(v) for k, v in bonds_info.items()},
+                                'atom': int(used_index), 'displ': np.asarray(used_displ)})
+                        if on_call is not None:
+                            on_call(before, bonds_info, int(used_index), used_displ, out, cls)
             except Exception as exc:  # noqa
                 ctx.violation('monitor-error:move', repr(exc))
             return out
